@@ -107,7 +107,7 @@ def run(tier):
         ck.inconclusive.append("instruction coverage %.2f below the floor %.2f" % (cov, COVERAGE_FLOOR))
     ck.sample({"limit_families": sorted(set(accepted) | set(rejected)), "coverage": round(cov, 4)})
     return ck.finish("every generator profile and the limits family (jump distances 65536%+d..%+d bytes for 11 jump-emitting "
-                     "constructs; 254..257 operands for 11 counted constructs; 65530..65540 constants) run under the dispatch "
+                     "constructs; 254..257 operands for 11 counted constructs incl. every arrangement of literal text around interpolation parts; 65530..65540 constants) run under the dispatch "
                      "monitor and compared with the model; non-trivial = distinct program that executed > 200 instructions "
                      "under the monitor, or an accepted limit case" % (deltas[0], deltas[-1]))
 
